@@ -50,7 +50,7 @@ def reg(pid, **kw):
     if "extra_sources" not in kw and not d.get("custom") and not d.get("roles") and not d.get("maker") \
             and d["mc"] and d["mc"][0][0] == "core":
         d.setdefault("gen_mc", "core")
-        d["extra_sources"] = (tlcgen.tlc_traces,)
+        d["extra_sources"] = (tlcgen.tlc_traces, tlcgen.repo_test_traces)
     d["prefixes"] = d["prefixes"] or [pid + "."]
     P[pid] = d
 
@@ -116,8 +116,8 @@ reg("C10", exc_ops=set(), nontrivial=nt_links, hook="paglinks", obs_fail=False,
     title="Pagelink pagination")
 reg("C11", exc_ops={"Reopen", "Clear"}, nontrivial=nt_pages, hook="life",
     roles=[("file", ()), ("file", ("Reopen",))], pairname="C11.twin", prefixes=["C11."],
-    weights={"Reopen": 22, "Clear": 5, "AddRule": 6, "CreateWe": 8},
-    profile={"raw": 0.1, "long": 0.3, "nlrus": 10}, n=(40, 500), steps=(14, 22), title="Close/reopen/clear")
+    weights={"Reopen": 24, "Clear": 5, "AddRule": 8, "CreateWe": 16, "DeleteWe": 6, "AddPage": 26},
+    profile={"raw": 0.1, "long": 0.3, "nlrus": 12}, n=(60, 600), steps=(16, 24), title="Close/reopen/clear")
 reg("C12", exc_ops=set(), nontrivial=nt_we, mc=[("core", 4, 5), ("we", 4, 5)], gen_mc="we",
     weights={"CreateWe": 12, "DeleteWe": 8, "Reopen": 10, "AddRule": 8, "Clear": 3},
     profile={"raw": 0.0, "long": 0.1}, title="Webentity ids")
